@@ -12,6 +12,10 @@ use crate::keyf::KeyF;
 pub fn builtin_set_member(x: Thunk<Val>, arr: ArrValue, #[default] keyF: KeyF) -> Result<bool> {
 	let mut low = 0;
 	let mut high = arr.len();
+	// Nothing to compare with: keyF is not applied to x either
+	if high == 0 {
+		return Ok(false);
+	}
 
 	let x = keyF.eval(x)?;
 
